@@ -170,7 +170,16 @@ def build_stream(name, log):
     if st.get('overlay'):
         ov = {'Replace': {}}
         for dst, src in st['overlay'].items():
-            ov['Replace'][os.path.join(REPO, dst)] = os.path.join(VERIF, 'overlay', src)
+            m = re.match(r'@mod:([^@]+)@/(.*)', dst)
+            if m:
+                # a file of a dependency (module cache): replaced or, with an empty source, removed from the build
+                d = subprocess.run(['go', 'list', '-m', '-f', '{{.Dir}}', m.group(1)], cwd=REPO, env=dict(goenv(), GOFLAGS=''),
+                                   capture_output=True, text=True).stdout.strip()
+                target = os.path.join(d, m.group(2))
+            else:
+                target = os.path.join(REPO, dst)
+            ov['Replace'][target] = os.path.join(VERIF, 'overlay', src) if src else ''
+
         ovp = os.path.join(BUILD, f'overlay_{name}.{os.getpid()}.json')
         json.dump(ov, open(ovp, 'w'))
         cmd += ['-tags', 'verif', '-overlay', ovp]
